@@ -275,6 +275,24 @@ fn exec_iter_script<T: Tbl>(ctx: &mut Ctx, ev: &Ev) {
     for k in ip::script_kinds(&script) {
         ctx.cell_only(&format!("iter-method|{}|{}", k, T::ty()));
     }
+    // scripts that rely on the iterator ending are only run on an iterator that does end (bounded next() loop)
+    if let Some(rem) = ip::Pos::new(n, start_blocks).remaining() {
+        if rem <= 4 * ip::MAX_DEFAULT_COST {
+            match guard(|| T::t_iter_ends_within(n, start.as_ref(), rem)) {
+                Outcome::Returned(true) => ctx.checked("iter-terminates", 1),
+                Outcome::Returned(false) => {
+                    ctx.violate("iter-terminates", ev, "script-preflight", format!(
+                        "the iterator {} yields more than the {} tables that are left (script not run)",
+                        if fresh { "all_functions".to_string() } else { format!("positioned on {}", hex_of_blocks(start_blocks)) }, rem));
+                    return;
+                }
+                Outcome::Panicked(m) => {
+                    ctx.violate("no-panic", ev, "iter-script", format!("stepping the iterator panicked: {}", m));
+                    return;
+                }
+            }
+        }
+    }
     let r = guard(|| T::t_iter_script(n, start.as_ref(), &script));
     match r {
         Outcome::Returned(got) => {
